@@ -14,6 +14,7 @@ CONSTANTS MaxAge,     \* proposals older than this (strictly) are dropped
           MaxClock,   \* bound on the clock (state constraint of the model only)
           MaxDepth,   \* bound on history length
           XG,         \* exclusion bounds range over -XG..0 and 0..XG
+          Shards, Shard, \* "states" mode explores the system bounds with Pick(s) = Shard (Shards = 1: all)
           ExclInside, \* restrict system bounds to exclusion zone inside inclusion bounds
           HPref, HLo, HHi,  \* alphabet of proposals in "history" mode (subsets of OptGrid)
           Mode        \* "sim": like history, full alphabet, emit only full-length histories
@@ -40,7 +41,8 @@ PropSet == {q \in [pref : OptGrid, lo : OptGrid, hi : OptGrid, live : {TRUE}, t 
 PropSetH == IF Mode = "history"
             THEN {q \in PropSet : q.pref \in HPref /\ q.lo \in HLo /\ q.hi \in HHi}
             ELSE PropSet
-SysSetH == IF Mode = "history" THEN {s \in SysSet : s.has => (s.lo = -G /\ s.hi = G)} ELSE SysSet
+SysPick(s) == ((s.lo + G) * 7 + s.hi * 5 + (s.xlo + XG) * 3 + s.xhi + (IF s.has THEN 1 ELSE 0)) % Shards = Shard
+SysSetH == IF Mode = "states" THEN {s \in SysSet : SysPick(s)} ELSE IF Mode = "history" THEN {s \in SysSet : s.has => (s.lo = -G /\ s.hi = G)} ELSE SysSet
 SysRec(s) == [a |-> "bounds", has |-> s.has, lo |-> s.lo, hi |-> s.hi, xlo |-> s.xlo, xhi |-> s.xhi]
 NoSys(s) == ~s.has /\ ~HasExcl(s)
 
